@@ -486,6 +486,7 @@ def c02(ctx):
     q = ctx.quick()
     ctx.model("c02-bag", dict(DATA33, NetMode="bag", MaxSend=2, MaxFlight=2, MaxDup=2, MaxDrop=1), ["DeliveredAuthentic", "AtMostOnce"])
     ctx.model("c02-adv", dict(DATA33, MaxSend=2, MaxFlight=2, MaxAtk=2 if q else 3), ["NoForgedPlain", "DeliveredAuthentic", "AtMostOnce", "PrefixOrder"], timeout=2400)
+    ctx.export_validate("c02x-adv", dict(DATA33, MaxSend=2, MaxFlight=2, MaxAtk=2), "none", drain=True, maxsched=1200 if q else 16000, timeout=2400)
     ctx.export_tamper_validate("c02-data", dict(DATA33, MaxSend=2, MaxFlight=2, MaxTick=1, MaxExtra=1), "fifo-data", per_msg=14 if q else 0,
                                allpos=not q, maxsched=80 if q else 600)
     ctx.export_tamper_validate("c02-data-v2", dict(PolA=1, PolB=1, Setup="ake", MaxSend=2, MaxFlight=2), "fifo-data", per_msg=14 if q else 0,
@@ -510,6 +511,9 @@ def c01(ctx):
     for name in (("queryA",) if q else ("queryA", "both", "queryB-v2")):
         pol, prelude = STARTS[name]
         ctx.model("c01-adv-" + name, dict(pol, Prelude=prelude, MaxFlight=4, MaxAtk=2 if q else 3), ["AuthInv", "AgreeInv"], timeout=2400)
+        # ... and the same adversarial behaviours replayed into the real code (the driver concretises E's choices)
+        ctx.export_validate("c01x-adv-" + name, dict(pol, Prelude=prelude, MaxFlight=4, MaxAtk=2 if q else 3), "ake", drain=True,
+                            maxsched=1200 if q else 12000, timeout=2400)
     qa_pol, qa_prel = STARTS["queryA"]
     ctx.model_expect_violation("c01-adv-reach", dict(qa_pol, Prelude=qa_prel, MaxFlight=4, MaxAtk=2), ["EveNeverPeer"], kf={})
     rp, rprel = STARTS["refresh"]
@@ -528,6 +532,8 @@ def c15(ctx):
         c = dict(pol, Prelude=prelude, MaxSend=0, MaxFlight=4)
         ctx.export_tamper_validate("c15-ake-" + name, c, "ake", per_msg=30 if q else 0, allpos=not q, maxsched=8 if q else 40)
         ctx.export_tamper_validate("c15-aker-" + name, c, "none", per_msg=8 if q else 30, maxsched=6 if q else 30, replace=True)
+    qa_pol, qa_prel = STARTS["queryA"]
+    ctx.export_validate("c15x-adv", dict(qa_pol, Prelude=qa_prel, MaxFlight=4, MaxAtk=2 if q else 3), "ake", drain=True, maxsched=800 if q else 8000)
     ctx.export_tamper_validate("c15-data", dict(PolA=2, PolB=3, Setup="ake", MaxSend=2, MaxFlight=2), "fifo-data", per_msg=12 if q else 0,
                                allpos=not q, maxsched=40 if q else 300)
     ctx.random_validate("data", 32 if q else 200, 40)
